@@ -1,20 +1,16 @@
 #!/bin/bash
-# Offline setup: warm the Go build cache for every check (sources on disk only).
+# Offline setup: build every check once (incl. instrumented and -race variants) so that the Go
+# build cache is warm. Uses only files on disk.
 set -u
 cd "$(dirname "$(readlink -f "$0")")"
 export GOFLAGS=-mod=mod GOPROXY=off
 mkdir -p .work evidence replays
 (cd /repo && go build ./... ) || { echo "setup: /repo does not build"; exit 1; }
-go build -o /dev/null ./vf ./enum ./mc/... ./ref/... || exit 1
 rc=0
-for d in checks/*/; do
-  id=$(basename "$d")
+pids=()
+for d in checks/c[0-9]*/; do
+  id=$(basename "$d" | tr a-z A-Z)
   [ -f "$d/main.go" ] || continue
-  if [ -x "$d/prebuild.sh" ]; then continue; fi   # overlay-built checks are warmed below
-  go build -o .work/setup-$id "./$d" || rc=1
-  rm -f .work/setup-$id
-done
-for d in checks/*/; do
-  [ -x "$d/setup.sh" ] && { "$d/setup.sh" || rc=1; }
+  VERIF_BUILD_ONLY=1 ./vcheck "$id" quick || rc=1
 done
 exit $rc
